@@ -63,6 +63,7 @@ spec fn content_ok(e: IndexEntry) -> bool {
     &&& content_of(e.addrs@) == src_bytes(e.apath@)
     &&& total_len(e.addrs@) == src_bytes(e.apath@).len()
     &&& e.kind == Kind::File
+    &&& e.target is None    // only symlinks carry a target (C13)
 }
 
 spec fn recorded_ok(e: IndexEntry) -> bool {
@@ -87,6 +88,7 @@ spec fn queued_ok(q: QueuedFile, buf: Seq<u8>) -> bool {
     &&& forall|k: int| 0 <= k < q.len ==> buf[q.start + k] == #[trigger] src_bytes(q.entry.apath@)[k]
     &&& q.entry.addrs@.len() == 0
     &&& q.entry.kind == Kind::File
+    &&& q.entry.target is None
 }
 
 // What flush makes of a queued file once the combined block `buf` is stored under hash h = hash_of(buf):
@@ -138,6 +140,17 @@ proof fn lemma_held_push_queue(fin: Seq<IndexEntry>, qs: Seq<QueuedFile>, x: Que
     let q = queue_paths(qs);
     assert(a + queue_paths(qs.push(x)) =~= (a + q).push(x.entry.apath@));
     (a + q).to_multiset_ensures();
+}
+
+// dropping the queue only loses paths
+proof fn lemma_held_drop_queue(fin: Seq<IndexEntry>, qs: Seq<QueuedFile>)
+    ensures held(fin, Seq::empty()).subset_of(held(fin, qs)),
+{
+    let a = entry_paths(fin);
+    let q = queue_paths(qs);
+    assert(a + queue_paths(Seq::empty()) =~= a);
+    vstd::seq_lib::lemma_multiset_commutative(a, q);
+    assert(held(fin, Seq::empty()).subset_of(held(fin, qs)));
 }
 
 proof fn lemma_flush_keeps_paths(fin0: Seq<IndexEntry>, queue0: Seq<QueuedFile>, buf0: Seq<u8>, fin1: Seq<IndexEntry>)
